@@ -3,7 +3,7 @@
 
   Only property theorems live here (helper lemmas: Proofs/Codec.lean).  They
   are about the model of /repo/num's codec in Model/Codec.lean (the code as it
-  is after fix 36384ed) and relate it to the specification in Spec/C06.lean:
+  is after fix 36384ed and the fix decoding quoted JSON values) and relate it to the specification in Spec/C06.lean:
   the hand-written recognisers of the two published patterns, the exact
   decimal reading of a pattern member, and the 64-bit condition `fits64`.
 -/
@@ -334,10 +334,30 @@ theorem percentage_no_symbol_value (s : Text) (a : Amount) (hne : s ≠ []) (hl 
   have h2 : (s.getLast? == some '%') = false := by simpa using hl
   simp only [h1, h2, Bool.false_eq_true, if_false, ha]
 
-/-! ## JSON layer: quoted and bare forms agree -/
+/-! ## JSON layer: a string is read by its value, only the literal `null` is a no-op
 
-private theorem member_ne_nil (s : Text) (h : isAmountText s = true) : s ≠ [] := by
-  intro e; subst e; revert h; decide
+`jsonSpelling mask s` (Spec/C06) is the text `s` written as a JSON string token
+in which the characters selected by `mask` are spelled `\u00XX`; `jsonPlain`
+are the ASCII characters that may also stand for themselves (everything a
+pattern member consists of: `isAmountText_plain`, `isPercentageText_plain`). -/
+
+/-- A JSON string is read exactly as `AmountFromString` reads its *value*,
+    whichever of its characters are written as escapes. -/
+theorem json_string_read_by_value (cur : Amount) (mask : List Bool) (s : Text)
+    (hs : ∀ c ∈ s, jsonPlain c = true) :
+    amountUnmarshalJSON cur (jsonSpelling mask s) = amountFromString s := by
+  unfold amountUnmarshalJSON
+  rw [jsonText_spelling mask s hs]
+  simp
+
+/-- So a JSON string is accepted as an amount iff its value is a fitting member of
+    the published pattern — for every spelling of that value. -/
+theorem json_string_accepts_iff (cur : Amount) (mask : List Bool) (s : Text)
+    (hs : ∀ c ∈ s, jsonPlain c = true) :
+    (∃ a, amountUnmarshalJSON cur (jsonSpelling mask s) = .ok a) ↔
+      (isAmountText s = true ∧ fits64 s = true) := by
+  rw [json_string_read_by_value cur mask s hs]
+  exact amount_accepts_iff s
 
 private theorem member_head (s : Text) (h : isAmountText s = true) : s.head? ≠ some '"' := by
   cases s with
@@ -350,39 +370,96 @@ private theorem member_head (s : Text) (h : isAmountText s = true) : s.head? ≠
     unfold isAmountText stripMinus isAmountBody
     simp [digit]
 
-private theorem unquote_quoted (s : Text) (h : s ≠ []) : unquote ('"' :: (s ++ ['"'])) = s := by
-  unfold unquote
-  have hl : ('"' :: (s ++ ['"'])).length > 2 := by
-    cases s with
-    | nil => exact absurd rfl h
-    | cons c r => simp
-  have hlast : ('"' :: (s ++ ['"'])).getLast? = some '"' := by
-    rw [← List.cons_append, getLast_snoc]
-  simp only [hl, decide_true, List.head?_cons, beq_self_eq_true, hlast, Bool.and_self, if_true,
-    List.drop_one, List.tail_cons, List.dropLast_concat]
+/-- For every member of the amount pattern every spelling of the quoted JSON
+    string and the bare JSON number are read identically, namely as
+    `AmountFromString` reads the text. -/
+theorem json_quoted_and_bare_agree (cur : Amount) (mask : List Bool) (s : Text) (h : isAmountText s = true) :
+    amountUnmarshalJSON cur (jsonSpelling mask s) = amountFromString s ∧
+    amountUnmarshalJSON cur s = amountFromString s := by
+  refine ⟨json_string_read_by_value cur mask s (isAmountText_plain s h), ?_⟩
+  have hnull : (s == nullText) = false := by
+    rw [beq_eq_false_iff_ne]
+    intro e; subst e; revert h; decide
+  unfold amountUnmarshalJSON
+  rw [jsonText_bare s (member_head s h), hnull]
+  simp
 
-private theorem unquote_bare (s : Text) (h : s.head? ≠ some '"') : unquote s = s := by
-  unfold unquote
-  have : (s.head? == some '"') = false := by simpa using h
+/-- Only the JSON literal `null` leaves the receiver untouched; the JSON *string*
+    "null", however spelled, is rejected like any other text outside the pattern. -/
+theorem json_null_literal_only (cur : Amount) (mask : List Bool) :
+    amountUnmarshalJSON cur nullText = .ok cur ∧
+    amountUnmarshalJSON cur (jsonSpelling mask nullText) = .error .major := by
+  constructor
+  · unfold amountUnmarshalJSON
+    rw [jsonText_bare nullText (by decide)]
+    simp
+  · rw [json_string_read_by_value cur mask nullText (by decide)]
+    decide
+
+/-- A value that starts with a quote but is not one JSON string (unterminated, raw
+    control character, bad escape, text after the closing quote) is an error for
+    both types, whatever the receiver. -/
+theorem json_malformed_string_rejected (cur : Amount) (curP : Pct) (v : Text)
+    (hq : v.head? = some '"') (hd : jsonDecodeString v = none) :
+    amountUnmarshalJSON cur v = .error .json ∧ pctUnmarshalJSON curP v = .error .json := by
+  have : jsonText v = .error .json := by
+    unfold jsonText
+    simp [hq, hd]
+  unfold amountUnmarshalJSON pctUnmarshalJSON
+  rw [this]
+  exact ⟨rfl, rfl⟩
+
+/-- Percentages: a non-empty JSON string is read as `PercentageFromString` reads
+    its value, whichever of its characters are written as escapes … -/
+theorem json_percentage_read_by_value (cur : Pct) (mask : List Bool) (s : Text)
+    (hs : ∀ c ∈ s, jsonPlain c = true) (hne : s ≠ []) :
+    pctUnmarshalJSON cur (jsonSpelling mask s) = percentageFromString s := by
+  unfold pctUnmarshalJSON
+  rw [jsonText_spelling mask s hs]
+  have : s.isEmpty = false := by simpa using hne
   simp [this]
 
-/-- For every member of the amount pattern the quoted JSON string and the bare
-    JSON number are read identically, namely as `AmountFromString` reads the text. -/
-theorem json_quoted_and_bare_agree (cur : Amount) (s : Text) (h : isAmountText s = true) :
-    amountUnmarshalJSON cur ('"' :: (s ++ ['"'])) = amountFromString s ∧
-    amountUnmarshalJSON cur s = amountFromString s := by
-  have hnull : s ≠ nullText := by
-    intro e; subst e; revert h; decide
-  unfold amountUnmarshalJSON amountUnmarshalText
-  rw [unquote_quoted s (member_ne_nil s h), unquote_bare s (member_head s h)]
-  simp [hnull]
+/-- … and the empty JSON string is rejected: the leniency of `PercentageFromString`
+    for the empty text (known finding `percentage-empty-text`) does not reach JSON. -/
+theorem json_percentage_empty_rejected (cur : Pct) (mask : List Bool) :
+    pctUnmarshalJSON cur (jsonSpelling mask []) = .error .empty := by
+  unfold pctUnmarshalJSON
+  rw [jsonText_spelling mask [] (by simp)]
+  simp
 
-/-- the JSON literal `null` leaves the receiver untouched; so does — a leniency,
-    known finding `quoted-null-string` — the JSON *string* "null" -/
-theorem json_null_noop (cur : Amount) :
-    amountUnmarshalJSON cur nullText = .ok cur ∧
-    amountUnmarshalJSON cur ('"' :: (nullText ++ ['"'])) = .ok cur := by
-  constructor <;> (unfold amountUnmarshalJSON amountUnmarshalText; simp [unquote, nullText])
+/-- What is accepted from a JSON string as a percentage, exactly: a value whose
+    body (without one trailing `%`, if any) is a fitting amount text. -/
+theorem json_percentage_accepts_iff (cur : Pct) (mask : List Bool) (s : Text)
+    (hs : ∀ c ∈ s, jsonPlain c = true) :
+    (∃ q, pctUnmarshalJSON cur (jsonSpelling mask s) = .ok q) ↔
+      (isAmountText (pctBody s) = true ∧ fits64 (pctBody s) = true) := by
+  by_cases hne : s = []
+  · subst hne
+    rw [json_percentage_empty_rejected]
+    simp [pctBody]
+    decide
+  · rw [json_percentage_read_by_value cur mask s hs hne, percentage_accepts_iff]
+    simp [hne]
+
+/-- every fitting member of the published percentage pattern is accepted from JSON,
+    in every spelling -/
+theorem json_percentage_accepts_pattern (cur : Pct) (mask : List Bool) (s : Text)
+    (h : isPercentageText s = true) (hf : fits64 s.dropLast = true) :
+    ∃ q, pctUnmarshalJSON cur (jsonSpelling mask s) = .ok q := by
+  have hne : s ≠ [] := by intro e; subst e; revert h; decide
+  rw [json_percentage_read_by_value cur mask s (isPercentageText_plain s h) hne]
+  exact percentage_accepts_pattern s h hf
+
+/-- the literal `null` is a no-op for percentages too, the string "null" an error -/
+theorem json_percentage_null_literal_only (cur : Pct) (mask : List Bool) :
+    pctUnmarshalJSON cur nullText = .ok cur ∧
+    pctUnmarshalJSON cur (jsonSpelling mask nullText) = .error .major := by
+  constructor
+  · unfold pctUnmarshalJSON
+    rw [jsonText_bare nullText (by decide)]
+    simp
+  · rw [json_percentage_read_by_value cur mask nullText (by decide) (by decide)]
+    decide
 
 
 /-! ## non-vacuity: the hypotheses are satisfiable, at boundaries and with signs -/
@@ -405,6 +482,19 @@ example : percentageFromString "16.0%".toList = .ok ⟨⟨160, 3⟩⟩ := by dec
 example : pctToString ⟨⟨160, 3⟩⟩ = "16.0%".toList ∧ pctToString ⟨⟨5, 0⟩⟩ = "500%".toList ∧
     pctToString ⟨⟨-5, 1⟩⟩ = "-50%".toList := by decide +kernel
 example : |(160 : ℤ) * 10000| < 2 ^ 52 := by decide
+example : jsonSpelling [true, false, true] "1.5".toList = "\"\\u0031.\\u0035\"".toList := by decide
+example : amountUnmarshalJSON ⟨7, 1⟩ "\"\\u0031.5\"".toList = .ok ⟨15, 1⟩ := by decide
+example : amountUnmarshalJSON ⟨7, 1⟩ "\"\\u0031\\u002E5\"".toList = .ok ⟨15, 1⟩ := by decide
+example : amountUnmarshalJSON ⟨7, 1⟩ "1.5".toList = .ok ⟨15, 1⟩ := by decide
+example : pctUnmarshalJSON ⟨⟨7, 1⟩⟩ "\"16\\u0025\"".toList = .ok ⟨⟨16, 2⟩⟩ := by decide +kernel
+example : pctUnmarshalJSON ⟨⟨7, 1⟩⟩ "\"\"".toList = .error .empty := by decide
+example : jsonDecodeString "\"\\ud83d\\ude00\"".toList = some ([0xF0, 0x9F, 0x98, 0x80].map Char.ofNat) := by decide
+example : jsonDecodeString "\"\\ud83d\"".toList = some replacementBytes := by decide
+example : jsonDecodeString ['"', Char.ofNat 0xFF, '"'] = some replacementBytes := by decide
+example : jsonDecodeString "\"a\\n\\/\" \n".toList = some ['a', Char.ofNat 10, '/'] := by decide
+example : ∀ c ∈ "-12.50%".toList, jsonPlain c = true := by decide
+example : ["\"1", "\"1\\x\"", "\"1\"2\"", "\"\\u12g4\"", "\"1\t\"", "\"1\" x"].map (fun v => jsonDecodeString v.toList)
+    = [none, none, none, none, none, none] := by decide
 
 /-! ## expectations over facts regenerated from /repo on every run
 
@@ -432,7 +522,12 @@ theorem minimal_library_calls : libcalls_Amount_MinimalString =
 theorem percentage_parser_calls : calls_PercentageFromString = ["len", "AmountFromString", "PercentageFromAmount"] := by decide
 theorem percentage_printer_calls : calls_Percentage_String = ["StringWithoutSymbol"] ∧
     calls_Percentage_StringWithoutSymbol = ["String", "Amount"] := by decide
-theorem unmarshal_json_calls : calls_Percentage_UnmarshalJSON = ["UnmarshalText", "unquote"] := by decide
+theorem json_text_shape : calls_jsonText = ["len", "Unmarshal", "string", "string"] ∧
+    conds_jsonText = ["len(value) > 0 && value[0] == '\"'", "err := json.Unmarshal(value, &text); err != nil"] := by decide
+theorem unmarshal_json_calls : calls_Amount_UnmarshalJSON = ["jsonText", "AmountFromString"] ∧
+    conds_Amount_UnmarshalJSON = ["err != nil || null", "err != nil"] ∧
+    calls_Percentage_UnmarshalJSON = ["jsonText", "New", "PercentageFromString"] ∧
+    conds_Percentage_UnmarshalJSON = ["err != nil || null", "text == \"\"", "err != nil"] := by decide
 
 end Expect
 
